@@ -192,7 +192,7 @@ void Exec::fresh_compare(Obj &o, const SolveOut &so, const std::string &how, int
 }
 
 // ------------------------------------------------------------------ bases
-static StoredBasis make_basis_pattern(const LP &m, long pat) {
+StoredBasis make_basis_pattern(const LP &m, long pat) {
 	// deterministic "arbitrary valid" basis: choose nrows basic among structurals+logicals, legal non-basic statuses
 	size_t n = m.cols.size(), mr = m.rows.size(); StoredBasis b; b.cstat.assign(n, '0'); b.rstat.assign(mr, '0'); b.origin = "made";
 	for (size_t j = 0; j < n; j++) { const MCol &c = m.cols[j]; bool up_first = ((pat >> (j % 20)) & 1) != 0;
@@ -215,12 +215,16 @@ void Exec::op_basis(Client &c) {
 	if (const Fault *f = op->fault("api.invalid")) {
 		std::string before = snapshot(*o); long v = fi(*f, "v"); int rv = 0; std::string w;
 		StoredBasis b = make_basis_pattern(o->m, v);
-		switch (modn(v, 5)) {
+		auto wb = [&](const StoredBasis &bb) { QSbasis *B = to_lib_basis(bb); world.expected_paths.insert("/sim/inv.bas"); int r = mpq_QSwrite_basis(o->p, B, "/sim/inv.bas"); free_lib_basis(B); return r; };
+		switch (modn(v, 8)) {
+		case 5: { w = "writebasis:size-cols"; if (n == 0) { T("  skip"); return; } StoredBasis bb = b; bb.cstat.resize((size_t)modn(v / 8, n)); rv = wb(bb); break; }
+		case 6: { w = "writebasis:size-rows"; if (m == 0) { T("  skip"); return; } StoredBasis bb = b; bb.rstat.resize((size_t)modn(v / 8, m)); rv = wb(bb); break; }
+		case 7: { w = "writebasis:size-swapped"; if (n == m) { T("  skip"); return; } StoredBasis bb; bb.cstat.assign((size_t)m, '0'); bb.rstat.assign((size_t)n, '1'); rv = wb(bb); break; }
 		case 0: { w = "loadbasis:size-cols"; StoredBasis bb = b; bb.cstat.push_back('0'); QSbasis *B = to_lib_basis(bb); rv = mpq_QSload_basis(o->p, B); free_lib_basis(B); break; }
 		case 1: { w = "loadbasis:size-rows"; StoredBasis bb = b; if (!bb.rstat.empty()) bb.rstat.pop_back(); else bb.rstat.push_back('1'); QSbasis *B = to_lib_basis(bb); rv = mpq_QSload_basis(o->p, B); free_lib_basis(B); break; }
 		case 2: { w = "loadbasis:badchar"; if (n + m == 0) { T("  skip"); return; } StoredBasis bb = b; if (n) bb.cstat[modn(v / 5, n)] = 'x'; else bb.rstat[modn(v / 5, m)] = '7'; QSbasis *B = to_lib_basis(bb); rv = mpq_QSload_basis(o->p, B); free_lib_basis(B); break; }
 		case 3: { w = "loadbasis:count"; if (m == 0) { T("  skip"); return; } StoredBasis bb = b; bool done = false; for (auto &ch : bb.cstat) if (ch == '1') { ch = '0'; done = true; break; } if (!done) for (auto &ch : bb.rstat) if (ch == '1') { ch = '0'; done = true; break; } QSbasis *B = to_lib_basis(bb); rv = mpq_QSload_basis(o->p, B); free_lib_basis(B); break; }
-		default: { w = "loadbasisarray:count"; if (m == 0) { T("  skip"); return; } StoredBasis bb = b; bool done = false; for (auto &ch : bb.rstat) if (ch != '1') { ch = '1'; done = true; break; } if (!done) for (auto &ch : bb.cstat) if (ch != '1') { ch = '1'; done = true; break; } if (!done) { T("  skip"); return; }
+		case 4: default: { w = "loadbasisarray:count"; if (m == 0) { T("  skip"); return; } StoredBasis bb = b; bool done = false; for (auto &ch : bb.rstat) if (ch != '1') { ch = '1'; done = true; break; } if (!done) for (auto &ch : bb.cstat) if (ch != '1') { ch = '1'; done = true; break; } if (!done) { T("  skip"); return; }
 			bb.cstat.push_back(0); bb.rstat.push_back(0); rv = mpq_QSload_basis_array(o->p, &bb.cstat[0], &bb.rstat[0]); break; }
 		}
 		invalid_epilogue(*o, w, rv, before); return;
